@@ -1,4 +1,5 @@
 """Per-property checks: obligations, tie, statement oracle, search, evidence."""
+import configparser
 import json
 import sys
 import os
@@ -31,6 +32,9 @@ def load_known():
         return {'findings': [], 'fixed': []}
 
 
+MAX_REPORTED = 40
+
+
 class Context:
     def __init__(self, pid, tier, seed):
         self.pid, self.tier, self.seed = pid, tier, seed
@@ -45,6 +49,7 @@ class Context:
         self.build_log = ''
         self.level = 'proof'
         self.known = load_known()
+        self._more_keys = set()
 
     # ---- scaling
     def n(self, quick, thorough):
@@ -65,6 +70,15 @@ class Context:
             if key not in [h[0] for h in self.known_hits]:
                 self.known_hits.append((key, what))
                 print(f'KNOWN-FINDING: property={self.pid} {key}: {what}')
+            return
+        if len(self.violations) >= MAX_REPORTED:
+            # a change that breaks a property everywhere: the first MAX_REPORTED failing inputs are written out, the
+            # rest are only counted (the exit status and the evidence count them all)
+            if key not in self._more_keys:
+                self._more_keys.add(key)
+                self.violations.append((key, what, None))
+                if len(self._more_keys) == 1:
+                    print(f'  ... further violations of {self.pid} are counted, not listed')
             return
         os.makedirs(REPLAY_DIR, exist_ok=True)
         safe = ''.join(c if (c.isascii() and c.isalnum()) or c in '-_.' else ('_' if c.isascii() else 'u%04x' % ord(c)) for c in key)[:80]
@@ -386,6 +400,85 @@ def tie_real(ctx, runs, label='solve-real'):
     return out
 
 
+def oracle_c01_cli(r):
+    """run the REAL command `habutax solve` (habutax.solve(args), in-process, no prompting) on the inputs of a finished
+    scenario run, with one needed input and (when the return has several) nothing else removed, so that failures with more
+    than one kind of problem occur; compare the text it prints with what a directly driven Solver reports"""
+    import contextlib
+    import io
+    import tempfile
+    import types
+    import habutax
+    import scenarios as sc
+    from habutax import solver as hsolver, inputs as hinputs, forms as hforms
+    probs = []
+    inputs = dict(sc.inputs_of(r))
+    asked = [a[0] for a in r.get('asked', []) if a[0] in inputs]
+    variants = [inputs]
+    if asked:
+        # drop the last two inputs the original run had to ask for: the solve now lacks inputs (and whatever else is wrong)
+        v = dict(inputs)
+        for k in asked[-2:]:
+            v.pop(k, None)
+        variants.append(v)
+    for inp in variants:
+        cfg = configparser.ConfigParser(interpolation=None)
+        for k, val in inp.items():
+            sec, opt = k.split('.', 1)
+            if not cfg.has_section(sec):
+                cfg.add_section(sec)
+            cfg.set(sec, opt, val)
+        tmpd = tempfile.mkdtemp(prefix='hv-c01-', dir='/var/tmp')
+        path = os.path.join(tmpd, 'in.ini')
+        try:
+            with open(path, 'w') as fh:
+                cfg.write(fh)
+            # reference: the solver driven directly on the same file
+            try:
+                s = hsolver.Solver(hinputs.InputStore(path), hforms.available_forms[r['year']], prompt=None)
+                ok = s.solve(list(r['forms']))
+            except BaseException as e:  # noqa: BLE001
+                if isinstance(e, (KeyboardInterrupt, SystemExit)):
+                    raise
+                continue            # aborts are the other branch of the property; nothing is printed
+            out = io.StringIO()
+            args = types.SimpleNamespace(input_file=path, forms=list(r['forms']), year=r['year'], prompt_missing=False,
+                                         writeback_input=False, solution=os.path.join(tmpd, 'sol.ini'))
+            try:
+                with contextlib.redirect_stdout(out):
+                    habutax.solve(args)
+            except BaseException as e:  # noqa: BLE001
+                if isinstance(e, (KeyboardInterrupt, SystemExit)):
+                    raise
+                probs.append(('cli-raises', f'`habutax solve` raises {type(e).__name__} where Solver.solve returns {ok}'))
+                continue
+            text = out.getvalue()
+            if ok:
+                if 'Successfully solved' not in text or 'Failed' in text:
+                    probs.append(('cli-verdict', 'the solve succeeded but `habutax solve` does not say so'))
+                continue
+            if 'Successfully solved' in text or 'Failed to solve' not in text:
+                probs.append(('cli-verdict', 'the solve FAILED but `habutax solve` does not say so'))
+            missing = []
+            for name in s.unimplemented_fields():
+                if name not in text:
+                    missing.append(f'unimplemented line {name}')
+            for dep, waiters in s.unmet_input_dependencies().items():
+                if dep not in text:
+                    missing.append(f'missing input {dep}')
+                missing += [f'line {w} blocked behind input {dep}' for w in waiters if w not in text]
+            for dep, waiters in s.unmet_field_dependencies().items():
+                if dep not in text:
+                    missing.append(f'blocking line {dep}')
+                missing += [f'line {w} blocked behind {dep}' for w in waiters if w not in text]
+            if missing:
+                probs.append(('cli-names', f'`habutax solve` failed without naming: {missing[:4]} ({len(missing)} in all)'))
+        finally:
+            import shutil
+            shutil.rmtree(tmpd, ignore_errors=True)
+    return probs
+
+
 def run_C01(ctx):
     broken = check_obligations(ctx, PROPS['C01']['theorems'])
     dis, reals, runs = tie_solver(ctx, broken)
@@ -402,6 +495,16 @@ def run_C01(ctx):
             checked += 1
             for p in oracle_c01(r['solver'], r['ok']):
                 bad.append(('scenario', scenario_replay(r), p))
+    # the exit text of the real `habutax solve` (observe_at of the property): a failed solve NAMES the unimplemented
+    # lines, the missing inputs and the lines blocked behind them; a successful one says so and nothing else
+    cli_checked = 0
+    for r in runs[:ctx.n(30, 200)]:
+        if r['exception'] is not None:
+            continue
+        for key, msg in oracle_c01_cli(r):
+            bad.append(('scenario', scenario_replay(r), msg))
+        cli_checked += 1
+    ctx.notes.append(f'exit text of the real `habutax solve` checked on {cli_checked} scenario files')
     ctx.statement['c01-verdict'] = {
         'checked': checked, 'violations': len(bad), 'distribution': dist,
         'distinct_nontrivial': sum(1 for r in runs if r['exception'] is None and len(r['solver']._v.values) > 50),
@@ -1922,6 +2025,26 @@ def run_C16(ctx):
                               '1099-g:0.box_4': '120.00', '1099-g:1.box_4': '45.50'})
             r = sc.run(year, ['1040'], pol)
             r['kind'], r['scenario_seed'], r['policy'] = 'highwage', f'{ctx.seed}/c16/{year}/highwage/{idx}', pol
+            runs.append(r)
+    # itemized returns (Schedule A actually used, state taxes below the cap so that every dollar on line 5a counts) with
+    # one copy of EVERY payer form, each with federal tax withheld: a withholding box that leaks into a deduction, or a
+    # deduction box that leaks into the payments, moves refund-minus-owed by something other than the dollar withheld
+    for year in (2021, 2022, 2023):
+        for j in range(ctx.n(2, 6)):
+            sd = f'{ctx.seed}/c16/itemwh/{year}/{j}'
+            pol, kind = sc.gen_policy(sd, year, kind='itemize')
+            pol.fixed.update({'1040.number_w-2': '1', '1040.number_1099-int': '1', '1040.number_1099-div': '1', '1040.number_1099-r': '1',
+                              '1040.number_1099-g': '1', '1040.number_1098': '1', '1040_sa.itemize_though_less': 'yes',
+                              'box_2': '2400.00', 'box_4': ['150.00', '80.25'][j % 2],
+                              'w-2:0.box_17': '900.00', 'w-2:0.box_19': '0', '1099-div:0.box_16_1': '0', '1099-div:0.box_16_2': '0',
+                              '1099-int:0.box_17_1': '0', '1099-int:0.box_17_2': '0', '1099-r:0.box_14_1': '0', '1099-r:0.box_14_2': '0',
+                              '1099-r:0.box_17_1': '0', '1099-r:0.box_17_2': '0', '1098:0.box_5': '0', '1098:0.box_4': '0',
+                              'mortgage_insurance_premiums_special': 'no', 'general_sales_tax': 'no',
+                              'state_local_real_estate_taxes': '1200.00', 'state_local_personal_property_taxes': '0',
+                              'other_taxes_amount': '0', '1040.number_dependents': '0',
+                              '1040.filing_status': ['Single', 'MarriedFilingJointly', 'HeadOfHousehold'][j % 3]})
+            r = sc.run(year, ['1040'], pol)
+            r['kind'], r['scenario_seed'], r['policy'] = 'itemize-withholding', sd, pol
             runs.append(r)
     # NC returns with N.C. tax withheld on every kind of payer form, jointly owned where the form allows it
     for year in (2021, 2022, 2023):
